@@ -52,7 +52,7 @@ impl Shared {
     }
 }
 
-struct App(Shared);
+pub(crate) struct App(pub(crate) Shared);
 impl OutstationApplication for App {
     fn get_processing_delay_ms(&self) -> u16 {
         *self.0.delay_ms.lock().unwrap()
@@ -111,7 +111,7 @@ impl OutstationApplication for App {
     }
 }
 
-struct Info(Shared);
+pub(crate) struct Info(pub(crate) Shared);
 impl OutstationInformation for Info {
     fn broadcast_received(&mut self, function: FunctionCode, action: BroadcastAction) {
         let a = match action {
@@ -154,7 +154,7 @@ impl OutstationInformation for Info {
     }
 }
 
-struct Ctl(Shared);
+pub(crate) struct Ctl(pub(crate) Shared);
 fn code_u8(c: ControlCode) -> u8 {
     (c.tcc.as_u8() << 6) | if c.clear { 0x20 } else { 0 } | if c.queue { 0x10 } else { 0 } | c.op_type.as_u8()
 }
@@ -287,7 +287,7 @@ impl Cfg {
     fn feature(b: bool) -> Feature {
         if b { Feature::Enabled } else { Feature::Disabled }
     }
-    fn to_config(&self) -> OutstationConfig {
+    pub(crate) fn to_config(&self) -> OutstationConfig {
         let mut ev = EventBufferConfig::no_events();
         ev.max_binary = self.evmax;
         ev.max_analog = self.evmax;
